@@ -870,6 +870,16 @@ class Executor:
     def call(self, st, fr, t, base):
         callee = t.a["callee"]
         args = [self.operand(st, fr, o) for o in t.a["args"]]
+        m_ind = re.match(r"^(?:move |copy )?_(\d+)$", callee.strip())
+        if m_ind:
+            # call through a function-pointer local: dispatched on the VALUE of the local (e.g. a foreign function loaded from a
+            # dynamic library is an environment stub); the model table is consulted under the pseudo-name `fnptr:<tag>`
+            fv = st.cells.get((fr.fid, int(m_ind.group(1))))
+            if isinstance(fv, Opaque):
+                callee = "fnptr:%s" % fv.tag
+                args = [fv] + args
+            else:
+                raise Inconclusive("indirect call through %r" % (fv,))
         # 1. std / library models
         h = self.models.lookup(callee)
         if h is not None:
